@@ -103,6 +103,32 @@ func init() {
 		c.WhoMay("good-who", "secret", good, map[string]string{"ctl/flow.AllowedCaller": "the owner"})
 		c.WhoMay("bad-who", "secret", bad, map[string]string{})
 	}})
+	registerControl(controlDef{Name: "helper summaries 2 (|| chain result, guard on the caller's value inside a helper, origins through a helper, who-may through a helper)",
+		Bad:  []string{"bad-orchain", "bad-paramguard", "bad-originhelper", "bad-whohelper"},
+		Good: []string{"good-orchain-busy", "good-orchain-broken", "good-paramguard", "good-originhelper", "good-whohelper"}, Run: func(c *Ctx) {
+			sink := c.P.FuncObj("ctl/flow.sink")
+			busy := c.P.FuncObj("ctl/flow.busy")
+			broken := c.P.FuncObj("ctl/flow.broken")
+			verify := c.P.FuncObj("ctl/flow.verify")
+			produce := c.P.FuncObj("ctl/flow.produce")
+			c.MustCross("good-orchain-busy", c.P.Func("ctl/flow.OrChainGood"), "sink", isPlainCallTo(sink), OnFalse("busy", CallTo(busy)))
+			c.MustCross("good-orchain-broken", c.P.Func("ctl/flow.OrChainGood"), "sink", isPlainCallTo(sink), OnFalse("broken", CallTo(broken)))
+			c.MustCross("bad-orchain", c.P.Func("ctl/flow.OrChainBad"), "sink", isPlainCallTo(sink), OnFalse("broken", CallTo(broken)))
+			// verify(<the produced value>) must have succeeded — the helper sees it as its parameter
+			onProduced := func(e *Expr) bool {
+				e = strip(e)
+				return e != nil && e.K == ECall && sameFunc(e.Fn, verify) && len(e.Args) == 1 && CallTo(produce)(e.Args[0])
+			}
+			c.MustCross("good-paramguard", c.P.Func("ctl/flow.ParamGuardGood"), "sink", isPlainCallTo(sink), OnFalse("verify(produced)", onProduced))
+			c.MustCross("bad-paramguard", c.P.Func("ctl/flow.ParamGuardBad"), "sink", isPlainCallTo(sink), OnFalse("verify(produced)", onProduced))
+			for _, pr := range [][2]string{{"good-originhelper", "ctl/flow.OriginHelperGood"}, {"bad-originhelper", "ctl/flow.OriginHelperBad"}} {
+				for _, in := range instrsWhere(c.P.Func(pr[1]), isPlainCallTo(sink)) {
+					c.OriginCheck(pr[0], pr[0], in, "sink arg", callArg(in, 0), nil, CallTo(produce))
+				}
+			}
+			c.WhoMay("good-whohelper", "secret2", c.CallSites(c.P.FuncObj("ctl/flow.secret2")), map[string]string{"ctl/flow.AllowedCaller2": "the owner"})
+			c.WhoMay("bad-whohelper", "secret3", c.CallSites(c.P.FuncObj("ctl/flow.secret3")), map[string]string{"ctl/flow.AllowedCaller3": "the owner"})
+		}})
 	_ = ssa.Instruction(nil)
 }
 
